@@ -72,7 +72,7 @@ def _multipart(ctx: Ctx, rng):
     df = pd.DataFrame({"y": [float(rng.randint(0, 9)) for _ in range(n)], "a": [float(rng.randint(0, 9)) for _ in range(n)],
                        "A": pd.Series([rng.choice(["x", "y", "z"]) for _ in range(n - 3)] + ["x", "y", "z"], dtype=object),
                        "B": pd.Series([rng.choice(["u", "v"]) for _ in range(n - 2)] + ["u", "v"], dtype=object)})
-    f = rng.choice(["y ~ A", "y ~ a + A", "y ~ A | B", "y ~ a | A:B", "y + a ~ B + A", "A ~ a", "y ~ a | B"])
+    f = rng.choice(["y ~ A", "y ~ a + A", "y ~ A | B", "y ~ a | A:B", "y + a ~ B + A", "A ~ a", "y ~ a | B", "y ~ A | A + a", "y ~ a + B | B:A | A", "A ~ A:B | B"])
     victim = rng.choice([c for c in ("A", "B", "a") if c in f.replace("y ~", "").replace("~", " ") or c in f])
     rp = {"kind": "multipart", "formula": f, "changed": victim}
     ctx.oracle_runs += 1
@@ -93,6 +93,18 @@ def _multipart(ctx: Ctx, rng):
         pass
     except Exception as e:
         ctx.fail(f"the spec of {f!r} reused on data where {victim!r} changed kind raised {type(e).__name__} instead of the encoding error: {e}", rp)
+    # every part carries its own guard: the spec of a single part, re-used alone
+    for k, part in enumerate(specs._flatten()):
+        uses = {str(v) for v in part.required_variables}
+        if victim not in uses:
+            continue
+        try:
+            part.get_model_matrix(new)
+            ctx.fail(f"part {k} of the spec of {f!r} was reused alone on data where {victim!r} changed kind and no encoding error was raised", rp)
+        except FactorEncodingError:
+            pass
+        except Exception as e:
+            ctx.fail(f"part {k} of the spec of {f!r} reused alone on data where {victim!r} changed kind raised {type(e).__name__}: {e}", rp)
     # compatible follow-up with a lost level: same columns in every part
     new2 = df.copy()
     new2["A"] = pd.Series(["x"] * n, dtype=object)
